@@ -319,3 +319,16 @@ func SameUpToNumbering(a, b []*StreamSig) string {
 	}
 	return ""
 }
+
+// ConnKey names a connection irrespective of which end is taken as the client.
+func ConnKey(proto, ipA string, portA uint16, ipB string, portB uint16) string {
+	a, b := fmt.Sprintf("%s:%d", ipA, portA), fmt.Sprintf("%s:%d", ipB, portB)
+	if b < a {
+		a, b = b, a
+	}
+	return proto + "|" + a + "|" + b
+}
+
+func (s *StreamSig) ConnKey() string {
+	return ConnKey(s.Proto, s.ClientIP, s.ClientPort, s.ServerIP, s.ServerPort)
+}
